@@ -24,8 +24,11 @@ structure MiniU where
   elemId : Nat := 0
   canHaveContent : Bool := true
   selfClosing : Bool := false
-  attrs : List Bytes := []          -- lower-cased names, document order
-  flags : List Bool := []           -- text: [last_in_text_node]; doctype: [name?, public?, system?]
+  name : Bytes := [120]             -- tag name (element, end tag)
+  attrs : List (Bytes × Bytes) := []  -- (lower-cased name, value), document order; a value may be empty
+  text : Bytes := []                -- comment text
+  ids : List (Option Bytes) := []   -- doctype: [name, public id, system id]; `some []` = present but empty
+  flags : List Bool := []           -- text: [last_in_text_node]
   removed : Bool := false
   before : List Nat := []           -- streaming handlers in `content_before`
   repl : Option Nat := none         -- streaming handler in `replacement`
@@ -83,7 +86,10 @@ def attrNameOk (n : Bytes) : Bool :=
 def commentTextOk (t : Bytes) : Bool :=
   !(containsSeq t [45, 45, 62] || containsSeq t [45, 45, 33, 62] || hasPrefix t [62] || hasPrefix t [45, 62])
 
-def hasAttr (u : MiniU) (n : Bytes) : Bool := attrNameOk n && u.attrs.contains (asciiLowerBytes n)
+def attrValue (u : MiniU) (n : Bytes) : Option Bytes :=
+  if attrNameOk n then (u.attrs.find? (·.1 == asciiLowerBytes n)).map (·.2) else none
+
+def hasAttr (u : MiniU) (n : Bytes) : Bool := (attrValue u n).isSome
 
 def errTag : Msg := [0x74]
 def errAttr : Msg := [0x61]
@@ -97,28 +103,33 @@ def clearsContent (u : MiniU) : Bool := u.kind == .element && u.canHaveContent
 
 def miniUnitOp (u : MiniU) : ROp → MiniU × RRes × List Nat
   | .get f args =>
-    if f == 4 then (u, .optStr (if hasAttr u (args.headD []) then some [] else none), [])
+    if f == 4 then (u, .optStr (attrValue u (args.headD [])), [])
     else if f == 5 then (u, .bool (hasAttr u (args.headD [])), [])
     else if f == 16 then (u, .bool u.removed, [])
     else if f == 17 then (u, .bool u.selfClosing, [])
     else if f == 18 then (u, .bool u.canHaveContent, [])
     else if f == 41 then (u, .bool (u.flags.headD false), [])
-    else if f == 50 then (u, .optStr (if u.flags.getD 0 false then some [] else none), [])
-    else if f == 51 then (u, .optStr (if u.flags.getD 1 false then some [] else none), [])
-    else if f == 52 then (u, .optStr (if u.flags.getD 2 false then some [] else none), [])
-    else if f == 0 || f == 1 || f == 30 || f == 60 || f == 61 then (u, .str [], [])
+    else if f == 50 then (u, .optStr (u.ids.getD 0 none), [])
+    else if f == 51 then (u, .optStr (u.ids.getD 1 none), [])
+    else if f == 52 then (u, .optStr (u.ids.getD 2 none), [])
+    else if f == 0 || f == 60 then (u, .str (asciiLowerBytes u.name), [])
+    else if f == 1 || f == 61 then (u, .str u.name, [])
+    else if f == 30 then (u, .str u.text, [])
     else (u, .raw [], [])
   | .call f args _ =>
-    if f == 2 then (u, if tagNameOk (args.headD []) then .unit else .err errTag, [])
+    if f == 2 then
+      if tagNameOk (args.headD []) then ({ u with name := args.headD [] }, .unit, []) else (u, .err errTag, [])
     else if f == 6 then
       let n := args.headD []
       if attrNameOk n then
         let ln := asciiLowerBytes n
-        ({ u with attrs := if u.attrs.contains ln then u.attrs else u.attrs ++ [ln] }, .unit, [])
+        let v := args.getD 1 []
+        ({ u with attrs := if (u.attrs.any (·.1 == ln)) then u.attrs.map (fun a => if a.1 == ln then (ln, v) else a)
+                           else u.attrs ++ [(ln, v)] }, .unit, [])
       else (u, .err errAttr, [])
     else if f == 7 then
       let n := args.headD []
-      if attrNameOk n then ({ u with attrs := u.attrs.filter (· != asciiLowerBytes n) }, .unit, [])
+      if attrNameOk n then ({ u with attrs := u.attrs.filter (·.1 != asciiLowerBytes n) }, .unit, [])
       else (u, .unit, [])
     else if f == 13 then
       -- `replace`: mutations.rs:29 drops the old replacement; element.rs:528 also `remove_content()`
@@ -131,7 +142,9 @@ def miniUnitOp (u : MiniU) : ROp → MiniU × RRes × List Nat
     else if f == 12 then
       if clearsContent u then ({ u with after := [], removeContent := true }, .unit, u.after) else (u, .unit, [])
     else if f == 15 then ({ u with removed := true }, .unit, [])
-    else if f == 31 then (u, if commentTextOk (args.headD []) then .unit else .err errComment, [])
+    else if f == 31 then
+      if commentTextOk (args.headD []) then ({ u with text := args.headD [] }, .unit, []) else (u, .err errComment, [])
+    else if f == 62 then ({ u with name := args.headD [] }, .unit, [])   -- end_tag.rs:80: no validation
     else (u, .unit, [])
   | .callBytes _ b _ =>
     -- text_encoder.rs:212 `write_utf8_chunk`: an incomplete sequence at the end is kept for the next call
@@ -157,7 +170,10 @@ def miniUnitOp (u : MiniU) : ROp → MiniU × RRes × List Nat
     else (u, .absent, [])
   | .clearEndTagHandlers => ({ u with endRegs := [] }, .unit, [])
   | .attrCount => (u, .nat u.attrs.length, [])
-  | .attrGet _ _ => (u, .str [], [])
+  | .attrGet i f =>
+    match u.attrs[i]? with
+    | some (n, v) => (u, .str (if f == 24 then v else n), [])
+    | none => (u, .str [], [])
 
 def sinkUnit : MiniU := { kind := .sink }
 
